@@ -39,6 +39,7 @@ type c11Case struct {
 	Plugins  []c11Plugin       `json:"plugins"`
 	Limit    string            `json:"limit,omitempty"` // --plugin-time-limit ("" = default 1m)
 	Quiet    bool              `json:"quiet,omitempty"`
+	Debug    bool              `json:"debug,omitempty"`  // THRIFTGO_DEBUG=1 in the environment (profiles written at the end of main)
 	NoOut    bool              `json:"no_out,omitempty"` // no -o on the command line: every language writes to ./gen-<language>
 	Compress bool              `json:"compress,omitempty"`
 	Strategy string            `json:"strategy,omitempty"`
@@ -80,6 +81,9 @@ func (c *c11Case) spec() *simrt.Spec {
 	cc := &cmdCase{Prog: &program{Files: c.Files, Cwd: c.Cwd, Main: c.Main}, Cfg: c.Cfg, Second: c.Second, Env: map[string]string{}}
 	if c.Compress {
 		cc.Env["THRIFTGO_PLUGIN_COMPRESS_INCLUDE"] = "1"
+	}
+	if c.Debug {
+		cc.Env["THRIFTGO_DEBUG"] = "1"
 	}
 	for i := range c.Plugins {
 		p := &c.Plugins[i]
@@ -757,6 +761,7 @@ func c11GenCase(seed uint64, bo *backendOpts, corp []*program, idx int) *c11Case
 	}
 	c.Limit = []string{"", "", "0", "50ms", "1s", "1m", "3s"}[r.Intn(7)]
 	c.Quiet = r.Chance(1, 8)
+	c.Debug = r.Chance(1, 8)
 	c.NoOut = r.Chance(1, 6) || (c.Second != nil && r.Chance(1, 2))
 	c.Compress = r.Chance(1, 2)
 	c.Strategy = []string{"random", "rtb", "pct"}[r.Intn(3)]
